@@ -257,7 +257,7 @@ def describe_model(tops, order):
         return s
 
     top = ' '.join(d(o) for o in tops)
-    reg = ','.join(str(num[id(o)]) if id(o) in num else '?' for _, o in order)
+    reg = ','.join(str(n) for n in sorted(num[id(o)] for _, o in order))
     shared = sum(1 for n in holders if holders[n] >= 2)
     return 'ok|' + top + '|reg=' + reg + '|upd=' + str(shared)
 
